@@ -144,6 +144,11 @@ class NameBinder(NodeVisitor):
         for name in node.names:
             self.get_binding(name, node.namespace).add_reference(node)
 
+            if name in ['exec', 'eval', 'locals', 'globals', 'vars']:
+                # The declaration creates a module binding of this name even if nothing is ever assigned to it,
+                # so uses of the builtin would not be recognised later
+                get_global_namespace(node).tainted = True
+
     def visit_MatchAs(self, node):
         if node.name is not None and node.name not in node.namespace.nonlocal_names:
             self.get_binding(node.name, node.namespace).add_reference(node)
